@@ -246,10 +246,13 @@ CHECKS = {
              "nothing; a loss is reported exactly once and not at all during a reset; no other event reports a loss or "
              "closes; once shut, every request still running carries a resolved or cancelled response future in every "
              "state under every order of task micro-steps (C20_none_awaits_response) and ends at its next task step, a "
-             "request about to transmit ends with RuntimeError (C20_next_step_ends). Not a theorem: that every blocked "
-             "task gets that next step within the ACK wait (no lost wake-up across the three lock queues) - checked on the "
-             "real code under the virtual clock (late-end monitor) and by the differential.",
-        note=Q + "; termination *bound* after close / loss: correspondence + monitor only (partial)",
+             "request about to transmit ends with RuntimeError (C20_next_step_ends). Queue integrity and no lost wake-up "
+             "are proved for every reachable state; hence at a quiescent point a running request waits for a pending ACK "
+             "or response wait (C20_no_stranding), and after close, once the pending ACK wait's timer has fired and the loop "
+             "has come to rest, every request has ended (C20_close_bounded). Not a theorem: the loss clause 'terminates by "
+             "its timeout' as an induction over successive timer expiries - checked on the real code under the virtual "
+             "clock (late-end monitor) and by the differential.",
+        note=Q + "; termination by the response timeout after a loss: drain theorem + correspondence + monitor (partial)",
         design="7/C20, 12.1"),
 }
 
